@@ -56,6 +56,27 @@ let out_s = function
 (* quiescence fuel: built once (nat is unary; building it per phase dominated the run time) *)
 let fuel = nat_of_int 4000
 
+(* proxy names are canonical: p0, p1, ... in the order of first appearance in the observation (the harness
+   numbers new proxies that way; the model's creation order depends on the interleaving) *)
+let canon_proxies (obs : string) : string =
+  let n = String.length obs in
+  let b = Buffer.create n in
+  let tbl = Hashtbl.create 8 in
+  let i = ref 0 in
+  while !i < n do
+    if obs.[!i] = '=' && !i + 2 < n && obs.[!i + 1] = 'p' && obs.[!i + 2] >= '0' && obs.[!i + 2] <= '9' then begin
+      let j = ref (!i + 2) in
+      while !j < n && obs.[!j] >= '0' && obs.[!j] <= '9' do incr j done;
+      let old = String.sub obs (!i + 2) (!j - !i - 2) in
+      let nw = match Hashtbl.find_opt tbl old with
+        | Some x -> x
+        | None -> let x = string_of_int (Hashtbl.length tbl) in Hashtbl.add tbl old x; x in
+      Buffer.add_string b ("=p" ^ nw);
+      i := !j
+    end else (Buffer.add_char b obs.[!i]; incr i)
+  done;
+  Buffer.contents b
+
 let rec take n l = if n = 0 then [] else match l with [] -> [] | x :: r -> x :: take (n - 1) r
 
 let run_seq (ops : op list) : string =
@@ -111,7 +132,7 @@ let jvariant = ref jfixed
 let () =
   let rec go = function
     | "-jvariant" :: v :: r ->
-      jvariant := (match v with "seed3" -> jseed3 | "f11c" -> jf11c | _ -> jfixed); go r
+      jvariant := (match v with "seed3" -> jseed3 | "f11c" -> jf11c | "refs1" -> jrefs1 | _ -> jfixed); go r
     | _ :: r -> go r
     | [] -> () in
   go (Array.to_list Sys.argv)
@@ -293,7 +314,7 @@ let run_par ?(full = true) (np : int) (toks : string list) : string list =
       List.concat_map (fun c' ->
           if jblocked c' i then [b ^ " HANG"]
           else seq (i + 1) (b ^ (if i > 0 then "|" else "") ^ string_of_int i ^ ":" ^ jitems c c' i) c') outs in
-  List.sort_uniq compare (seq 0 "" (jinit (nat_of_int np) ops))
+  List.sort_uniq compare (List.map canon_proxies (seq 0 "" (jinit (nat_of_int np) ops)))
 
 let () = iter_lines (fun line ->
   match split_ws line with
@@ -302,6 +323,8 @@ let () = iter_lines (fun line ->
     let impl = match impl with
       | x :: _ -> String.map (fun ch -> if ch = '~' then ' ' else ch) (String.sub x 1 (String.length x - 1))
       | [] -> "" in
+    let impl_raw = impl in
+    let impl = canon_proxies impl in
     print_endline (try
                      let quick = run_par ~full:false (int_of_string np) toks in
                      (* exploration over budget (many goroutines woken at once): inconclusive, the observation
@@ -312,7 +335,7 @@ let () = iter_lines (fun line ->
                                note_inconclusive line;
                                if obs_satisfies_invariants toks impl then [impl]
                                else ["inconclusive (exploration budget) and the observation breaks the invariants"]) in
-                     if List.mem impl allowed then impl
+                     if List.mem impl allowed then impl_raw
                      else (match allowed with a :: _ -> a ^ " [" ^ string_of_int (List.length allowed) ^ " outcomes allowed]" | [] -> "none")
                    with Failure m -> "bad-case " ^ m)
   | "join" :: np :: toks when List.exists (fun x -> String.length x > 0 && x.[0] = '!') toks ->
@@ -321,6 +344,8 @@ let () = iter_lines (fun line ->
     let impl = match impl with
       | x :: _ -> String.map (fun ch -> if ch = '~' then ' ' else ch) (String.sub x 1 (String.length x - 1))
       | [] -> "" in
+    let impl_raw = impl in
+    let impl = canon_proxies impl in
     print_endline (try
                      let quick = run_par ~full:false (int_of_string np) toks in
                      (* exploration over budget (many goroutines woken at once): inconclusive, the observation
@@ -331,11 +356,11 @@ let () = iter_lines (fun line ->
                                note_inconclusive line;
                                if obs_satisfies_invariants toks impl then [impl]
                                else ["inconclusive (exploration budget) and the observation breaks the invariants"]) in
-                     if List.mem impl allowed then impl
+                     if List.mem impl allowed then impl_raw
                      else (match allowed with a :: _ -> a ^ " [" ^ string_of_int (List.length allowed) ^ " outcomes allowed]" | [] -> "none")
                    with Failure m -> "bad-case " ^ m)
   | "join" :: np :: steps ->
-    print_endline (try run_join (int_of_string np) (List.map jop_of steps) with Failure m -> "bad-case " ^ m)
+    print_endline (try canon_proxies (run_join (int_of_string np) (List.map jop_of steps)) with Failure m -> "bad-case " ^ m)
   | "seq" :: steps -> print_endline (try run_seq (List.map op_of steps) with Failure m -> "bad-case " ^ m)
   | [] -> ()
   | _ -> print_endline "bad-case")
